@@ -111,9 +111,18 @@ fn token_table(d: Dictionary, optss: &[Opts], sentences: &[String]) -> Result<(V
 }
 
 pub fn c05_case(ctx: &mut Ctx, rng: &mut Rng, stage: &str, xdir: &str) {
-    let cfg = GenCfg::default();
+    let cfg = GenCfg { allow_u0000_range: rng.chance(0.3), ..Default::default() };
     let mut case = gen_tokcase(rng, &cfg, 10, true);
     case.roundtrip = false;
+    if cfg.allow_u0000_range && case.spec.cats.len() > 1 && rng.chance(0.7) {
+        // U+0000 (the table entry that out-of-table lookups fall back to) in a category of its own choice
+        let k = 1 + rng.below(case.spec.cats.len() - 1);
+        case.spec.ranges.insert(0, Range { lo: 0, hi: if rng.chance(0.5) { 0 } else { 0x1F }, cats: vec![k] });
+        ctx.bucket("char_def_assigns_U+0000");
+    }
+    // characters behind the last char.def range, up to the end of the table
+    case.sentences.push("\u{FFE5}a\u{FFFD}".to_string());
+    case.sentences.push("\u{FFFF}\u{FFFE}".to_string());
     let u1 = gen_user(rng, &case.spec, &cfg);
     let u2 = gen_user(rng, &case.spec, &cfg);
     let (nr, nl) = case.spec.conn.dims();
@@ -209,6 +218,41 @@ pub fn c05_case(ctx: &mut Ctx, rng: &mut Rng, stage: &str, xdir: &str) {
             }
             Err(p) => {
                 ctx.violation("read_panicked", &format!("C05:read:{}", panic_class(&p)), p, cj(""));
+                return;
+            }
+        }
+    }
+    // the image is exactly the bytes `write` counted: what follows it in a stream (here a user lexicon, read by
+    // the next operation from the same reader) is still there after `read`
+    if fail_k_frac % 4 == 0 {
+        let mut v = bytes.clone();
+        v.extend_from_slice(lex_csv(&u1).as_bytes());
+        let mut cur = std::io::Cursor::new(v);
+        let streamed = guarded(|| -> Result<Dictionary, String> {
+            let dx = Dictionary::read(&mut cur).map_err(|e| e.to_string())?;
+            dx.reset_user_lexicon_from_reader(Some(&mut cur)).map_err(|e| e.to_string())
+        });
+        let direct = read_dict(&bytes).and_then(|r| match r {
+            Ok(dx) => load_user(dx, Some(&u1)),
+            Err(e) => Ok(Err(e)),
+        });
+        ctx.eval();
+        match (streamed, direct) {
+            (Ok(Ok(a)), Ok(Ok(b))) => match (write_dict(&a), write_dict(&b)) {
+                (Ok((x, _)), Ok((y, _))) if x == y => ctx.bucket("image_followed_by_user_lexicon_in_one_stream"),
+                _ => {
+                    ctx.violation("read_consumed_more_than_the_image", "C05:read_consumed_more_than_the_image", "read(&mut stream) followed by reset_user_lexicon_from_reader(&mut stream) on `image ++ user.csv` gives another dictionary than read(image) followed by loading user.csv".into(), cj(""));
+                    return;
+                }
+            },
+            (Ok(Err(_)), Ok(Err(_))) => {}
+            (a, b) => {
+                let f = |r: &Result<Result<Dictionary, String>, String>| match r {
+                    Ok(Ok(_)) => "Ok".to_string(),
+                    Ok(Err(e)) => format!("Err({e})"),
+                    Err(p) => format!("panic({p})"),
+                };
+                ctx.violation("read_consumed_more_than_the_image", "C05:read_consumed_more_than_the_image", format!("`image ++ user.csv` read through one `&mut` reader: {}; image and user.csv read separately: {}", f(&a), f(&b)), cj(""));
                 return;
             }
         }
@@ -369,6 +413,19 @@ fn c09_image(rng: &mut Rng, which: u64, rich: bool) -> Option<(Vec<u8>, String)>
     let kind = (which % 3) as u8;
     let cfg = GenCfg { conn_kind: kind, max_lex: 20, ..Default::default() };
     let mut case = gen_tokcase(rng, &cfg, 0, false);
+    if which == 3 {
+        // an image whose last section (the unknown-word entries) has more than 65536 entries
+        let (nr, nl) = case.spec.conn.dims();
+        for i in 0..66_000 {
+            case.spec.unk.push(UnkRow { cat: 0, l: rng.below(nl) as u16, r: rng.below(nr) as u16, cost: (i % 3000) as i16, feat: format!("U{i}") });
+        }
+        case.user = None;
+        case.mapping = None;
+        return match prepare(&case) {
+            Prep::Ready { dict, .. } => write_dict(&dict).ok().map(|(b, _)| (b, "more than 65536 unknown-word entries".to_string())),
+            _ => None,
+        };
+    }
     if rich {
         case.user = Some(gen_user(rng, &case.spec, &cfg));
         let (nr, nl) = case.spec.conn.dims();
@@ -387,7 +444,7 @@ fn c09_image(rng: &mut Rng, which: u64, rich: bool) -> Option<(Vec<u8>, String)>
 pub fn c09_case(ctx: &mut Ctx, _rng: &mut Rng, stage: &str) {
     let which = ctx.index;
     let mut irng = Rng::for_case(ctx.seed, "C09-image", 0, which);
-    let (img, desc) = match c09_image(&mut irng, which, which >= 3) {
+    let (img, desc) = match c09_image(&mut irng, which, which >= 4) {
         Some(x) => x,
         None => {
             ctx.note("image could not be built".into());
@@ -395,12 +452,14 @@ pub fn c09_case(ctx: &mut Ctx, _rng: &mut Rng, stage: &str) {
         }
     };
     let n = img.len();
-    let stride = if stage == "asan" { 997 } else { 1 };
+    // (the large image is cut at a sample of lengths: the first 2048, the last 8192 and every ~2500th in between)
+    let sampled = which == 3;
+    let stride = if stage == "asan" { 997 } else if sampled { 2503 } else { 1 };
     let mut k = ctx.shard as usize;
     let mut tried = 0u64;
     let cj = |k: usize| json!({"image": desc, "image_len": n, "prefix_len": k, "image_seed_index": which});
     while k < n {
-        let near_boundary = stride == 1 || k < 2048 || n - k < 2048 || k % stride < ctx.nshards as usize;
+        let near_boundary = stride == 1 || k < 2048 || n - k < if sampled { 8192 } else { 2048 } || k % stride < ctx.nshards as usize;
         if near_boundary {
             tried += 1;
             match guarded(|| Dictionary::read(&img[..k]).is_ok()) {
@@ -443,7 +502,7 @@ pub fn c09_case(ctx: &mut Ctx, _rng: &mut Rng, stage: &str) {
         }
     }
     let mut r2 = Rng(which ^ 77);
-    for _ in 0..60 {
+    for _ in 0..if sampled { 12 } else { 60 } {
         let k = r2.below(n);
         ctx.eval();
         // strict prefix through a chunked reader; and a hard I/O error at offset k
@@ -533,11 +592,15 @@ fn c11_cell(rng: &mut Rng, s: &str) -> String {
 pub fn c11_case(ctx: &mut Ctx, rng: &mut Rng) {
     // surfaces over an alphabet with commas, quotes, spaces and multi-byte text
     let pool: Vec<char> = vec!['a', 'b', ',', '"', ' ', 'あ', '漢', '𠮷', 'é', 'x', '\'', ';', '#', '\\', '0', '-', '\t', '/', '*', '\u{3000}'];
-    let n = 1 + rng.below(14);
+    // now and then hundreds of rows sharing one surface (a posting list longer than 255)
+    let many_homographs = rng.chance(0.015);
+    let n = if many_homographs { 256 + rng.below(60) } else { 1 + rng.below(14) };
     let user_side = rng.chance(0.4);
     let mut rows: Vec<LexRow> = vec![];
     for i in 0..n {
-        let surface = if rng.chance(0.07) {
+        let surface = if many_homographs {
+            "同".to_string()
+        } else if rng.chance(0.07) {
             String::new()
         } else if !rows.is_empty() && rng.chance(0.3) {
             let base = rows[rng.below(rows.len())].surface.clone();
@@ -601,12 +664,15 @@ pub fn c11_case(ctx: &mut Ctx, rng: &mut Rng) {
     let matrix = "5 3\n";
     let char_def = "DEFAULT 1 0 1\n";
     let unk_def = "DEFAULT,0,0,30000,UNK\n";
-    let sys_csv = if user_side { "zzz,0,0,1,S\n".to_string() } else { csv.clone() };
+    // a third arrangement: the same file as system lexicon AND as user lexicon (every user word then starts where
+    // a system word of the same surface starts; both must be there)
+    let both = user_side && rng.chance(0.4);
+    let sys_csv = if user_side && !both { "zzz,0,0,1,S\n".to_string() } else { csv.clone() };
     let cj = || json!({"csv": csv, "side": if user_side {"user"} else {"system"}});
     let d = match build_from_texts(sys_csv.as_bytes(), char_def.as_bytes(), unk_def.as_bytes(), &ConnTexts::Matrix(matrix.as_bytes().to_vec())) {
         BuildOutcome::Ok(d) => d,
         BuildOutcome::Err(e) => {
-            if !user_side && rows.iter().any(|r| !r.surface.is_empty()) {
+            if (!user_side || both) && rows.iter().any(|r| !r.surface.is_empty()) {
                 ctx.violation("well_formed_csv_rejected", "C11:well_formed_csv_rejected", e, cj());
             } else {
                 ctx.bucket("lexicon_without_any_word_rejected");
@@ -639,9 +705,13 @@ pub fn c11_case(ctx: &mut Ctx, rng: &mut Rng) {
         d
     };
     ctx.eval();
-    let lt = if user_side { LexType::User } else { LexType::System };
     let kept: Vec<&LexRow> = rows.iter().filter(|r| !r.surface.is_empty()).collect();
+    let sides: Vec<LexType> = if both { vec![LexType::System, LexType::User] } else if user_side { vec![LexType::User] } else { vec![LexType::System] };
+    if both {
+        ctx.bucket("same_rows_as_system_and_user_lexicon");
+    }
     // feature strings byte for byte, in row order
+    for &lt in &sides {
     for (i, r) in kept.iter().enumerate() {
         let got = match guarded(|| d.word_feature(WordIdx { lex_type: lt, word_id: i as u32 }).to_string()) {
             Ok(g) => g,
@@ -660,6 +730,7 @@ pub fn c11_case(ctx: &mut Ctx, rng: &mut Rng) {
         ctx.violation("extra_word", "C11:extra_word", format!("{} rows with a non-empty surface but word {} exists", kept.len(), kept.len()), cj());
         return;
     }
+    }
     // homographs: tokenizing each distinct surface alone shows exactly its rows at position 0
     let tok = Tokenizer::new(d);
     let mut w = tok.new_worker();
@@ -675,16 +746,21 @@ pub fn c11_case(ctx: &mut Ctx, rng: &mut Rng) {
         }
         let dump = vibrato::verif::dump_lattice(&w);
         let n = s.chars().count();
-        let mut got: Vec<(u32, u16, u16, i16)> = dump.ends[n].iter().filter(|nd| nd.start_word == 0 && lex_code(nd.lex_type) == lex_code(lt)).map(|nd| (nd.word_id, nd.left_id, nd.right_id, nd.word_cost)).collect();
-        let mut want: Vec<(u32, u16, u16, i16)> = kept.iter().enumerate().filter(|(_, r)| r.surface == s).map(|(i, r)| (i as u32, r.l, r.r, r.cost)).collect();
-        got.sort();
-        want.sort();
-        if got != want {
-            ctx.violation("homographs_not_preserved", "C11:homographs_not_preserved", format!("surface {s:?}: rows (id,l,r,cost) {:?} but the lattice has {:?}", want, got), cj());
-            return;
-        }
-        if want.len() >= 2 {
-            ctx.bucket("homographs");
+        for &lt in &sides {
+            let mut got: Vec<(u32, u16, u16, i16)> = dump.ends[n].iter().filter(|nd| nd.start_word == 0 && lex_code(nd.lex_type) == lex_code(lt)).map(|nd| (nd.word_id, nd.left_id, nd.right_id, nd.word_cost)).collect();
+            let mut want: Vec<(u32, u16, u16, i16)> = kept.iter().enumerate().filter(|(_, r)| r.surface == s).map(|(i, r)| (i as u32, r.l, r.r, r.cost)).collect();
+            got.sort();
+            want.sort();
+            if got != want {
+                ctx.violation("homographs_not_preserved", "C11:homographs_not_preserved", format!("surface {s:?} ({} lexicon): rows (id,l,r,cost) {:?} but the lattice has {:?}", if lex_code(lt) == lex_code(LexType::User) { "user" } else { "system" }, want, got), cj());
+                return;
+            }
+            if want.len() >= 2 {
+                ctx.bucket("homographs");
+            }
+            if want.len() >= 256 {
+                ctx.bucket("256_or_more_homographs_of_one_surface");
+            }
         }
     }
     if rows.iter().any(|r| r.surface.is_empty()) {
